@@ -14,6 +14,7 @@ import DrummerVerif.Lemmas.C01E
 import DrummerVerif.Lemmas.C01P
 import DrummerVerif.Lemmas.Cadence
 import DrummerVerif.Lemmas.Renew
+import DrummerVerif.Lemmas.Rounds
 /-!
 # C01 — self-healing: the control loop restores every shard after faults stop (PARTIAL: safety invariants and per-round progress lemmas; the convergence bound is decided by the correspondence run, see DESIGN.md)
 
@@ -588,6 +589,29 @@ theorem records_are_fresh_once_every_host_has_reported :
       (∀ c ∈ d.image.shards, ∀ r ∈ c.replicas, r.address ∈ A) →
         (∀ c ∈ d.image.shards, ∀ r ∈ c.replicas, r.tick ≤ d.tick) → DB.Fresh d (d.tick - t0) :=
   @_root_.Drummer.since_all_fresh
+
+/-- one sweep - a window of `k` ticks with arbitrary fault-free events in which every NodeHost named by a record reports at
+least once - keeps a settled, hosted fleet settled and brings every record to at most `k` ticks of age, whatever age
+(within the window) it started with -/
+theorem sweep_renews :
+    ∀ (l l' : Loop) (k s : Nat) (A : List Addr), Loop.Settled l → 0 < l.db.tick → DB.Fresh l.db s →
+      UniqueShards l.db.image → Loop.ViewsHosted l → s + k * tickInterval ≤ nodeHostTTL →
+        l.db.tick + k * tickInterval < 18446744073709551616 → SweepSteps l l' k A →
+          (∀ c ∈ l'.db.image.shards, ∀ r ∈ c.replicas, r.address ∈ A) →
+            QuietSteps l l' ∧ Loop.Settled l' ∧ Loop.ViewsHosted l' ∧ UniqueShards l'.db.image ∧ 0 < l'.db.tick ∧
+              DB.Fresh l'.db (k * tickInterval) :=
+  @_root_.Drummer.sweep_renews
+
+/-- **a healed fleet stays healed for ever under the reporting cadence**: no premise about scheduling moments any more. If
+two sweeps fit into the failure timeout, a settled, hosted fleet in which every member is running and whose records are at
+most one sweep old goes through ANY number of sweeps and stays settled, every member running, with no request issued -/
+theorem healed_for_ever_under_cadence :
+    ∀ (k : Nat) (l l' : Loop), Loop.Settled l → Loop.AllRunning l → 0 < l.db.tick →
+      DB.Fresh l.db (k * tickInterval) → UniqueShards l.db.image → Loop.ViewsHosted l →
+        2 * (k * tickInterval) ≤ nodeHostTTL → Sweeps k l l' →
+          QuietSteps l l' ∧ Loop.Settled l' ∧ Loop.AllRunning l' ∧ Loop.ViewsHosted l' ∧ UniqueShards l'.db.image ∧
+            0 < l'.db.tick ∧ DB.Fresh l'.db (k * tickInterval) :=
+  @_root_.Drummer.healed_for_ever_under_cadence
 
 end C01
 end Drummer
